@@ -41,7 +41,10 @@ point = st.one_of(st.integers(-4, 4).map(float), st.floats(-5, 5, allow_nan=Fals
 def batch_history(draw):
     s = draw(setup())
     nb = draw(st.integers(1, 4))
-    batches = [[[draw(point) for _ in range(s["n"])] for _ in range(draw(st.integers(1, 4)))] for _ in range(nb)]
+    # (a hand-picked design may be written with whole numbers: a list of Python ints)
+    ipoint = st.integers(-4, 4)
+    batches = [[[draw(pt) for _ in range(s["n"])] for pt in [draw(st.sampled_from([point, point, point, ipoint]))]
+                for _ in range(draw(st.integers(1, 4)))] for _ in range(nb)]
     s["batches"] = batches
     # optionally the objective fails transiently the first time it sees the k-th design (it is re-sampled and retried)
     s["fail_call"] = draw(st.one_of(st.none(), st.none(), st.integers(0, 12)))
@@ -55,6 +58,8 @@ def batch_history(draw):
     # new designs of later batches are offspring: their features are a deep copy of an already processed design's
     # (what the swarm algorithms' CopySelector hands on)
     s["inherit"] = draw(st.sampled_from([False, False, True]))
+    # an inequality constraint g(x) = x0 - c < 0: designs (and neighbours) on both sides of it
+    s["constraint"] = draw(st.one_of(st.none(), st.none(), st.sampled_from([0.0, 0.05, 1.0, -2.0])))
     s["retol"] = draw(st.one_of(st.none(), st.none(), st.tuples(
         st.integers(1, 3), st.integers(0, s["n"] - 1), st.sampled_from([0.5, 0.125, 0.01, 2.0]))))
     return s
@@ -81,7 +86,8 @@ def _problem(s, log, fail_call=None):
         return f(ind.vector)
     ps = [{"name": "x%d" % i, "bounds": [-5.0, 5.0], "tol": s["tol"][i]} for i in range(s["n"])]
     cs = [{"name": "f%d" % j, "criteria": s["crit"][j]} for j in range(s["m"])]
-    return make_problem(ps, cs, ev)
+    c_ = s.get("constraint")
+    return make_problem(ps, cs, ev, constraints=(lambda x: [float(x[0]) - c_]) if c_ is not None else None)
 
 
 def _work_lists_empty(clause, alg, bi):
@@ -203,7 +209,8 @@ def check_worst_case(case):
     finally:
         dispose(prob)
     nb = len(s["batches"])
-    return {"nt": nb >= 2, "classes": ["batches%d" % nb, "m%d" % m, "n%d" % n] + (["forget"] if s.get("forget") else []) + (["resubmit"] if any(s.get("resubmit") or []) else []) + (["inherited-features"] if s.get("inherit") and nb > 1 else [])
+    return {"nt": nb >= 2, "classes": ["batches%d" % nb, "m%d" % m, "n%d" % n] + (["forget"] if s.get("forget") else []) + (["resubmit"] if any(s.get("resubmit") or []) else []) + (["inherited-features"] if s.get("inherit") and nb > 1 else []) + (
+                ["constrained"] if s.get("constraint") is not None else [])
             + (["retol"] if retol and retol[0] < nb else [])}
 
 
